@@ -198,10 +198,12 @@ def _run_pck(cfg):
                     tot[t] = xf.radd(tot[t], xf.RIte(e.b if isinstance(e, xf.SB) else bool(e), Fraction(1), Fraction(0)))
         discharge(ex, rep, "P2-PCK-non-decreasing-in-pixel-threshold", rcmp("<=", tot[0], tot[1]), on_sat=lambda mo, env: ("pck-monotone", "PCK decreases when the pixel threshold grows", extract(mo, env)))
         # the dists array handed in is not modified (pck_metrics works on a copy)
-        same = all(isinstance(dists[i, k], XF) and dists[i, k].v.eq(z3.Real(f"dist_{i}_{k}")) for i in range(P) for k in range(N))
+        same = all(isinstance(dists[i, k], XF) and xf.isz(dists[i, k].v) and dists[i, k].v.eq(z3.Real(f"dist_{i}_{k}")) for i in range(P) for k in range(N))
         rep.record("P3-pck-does-not-modify-stored-distances", "unsat" if same else "sat")
         if not same:
-            rep.violation("P3-pck-does-not-modify-stored-distances", "pck-mutates-dists", "pck_metrics changed the stored distance array", extract(None, __import__("symx.explorer", fromlist=["x"]).DefaultEnv({})))
+            from symx.explorer import model_env as _me, DefaultEnv as _DE
+            mo_ = ex.full_model()  # the path fixes which distances are missing: the change may show only for those
+            rep.violation("P3-pck-does-not-modify-stored-distances", "pck-mutates-dists", "pck_metrics changed the stored distance array", extract(mo_, _DE(_me(mo_))))
         avg = XF.of(dm["avg"])
         anyvis = Or(*[Not(z3.Bool(f"dist_{i}_{k}#nan")) for i in range(P) for k in range(N)])
         discharge(ex, rep, "P4-average-distance-nonnegative", xf.Implies(anyvis, And(avg.fin(), rcmp(">=", avg.v, 0))), on_sat=lambda mo, env: ("dist-avg", "average distance negative / NaN with visible nodes", extract(mo, env)))
